@@ -1247,6 +1247,9 @@ class GrammarBuilder:
         if mangle is not None:
             params = tuple(mangle(p) for p in params)
             name = mangle(name)
+            if not is_term and opts.template_source is not None:
+                # Instances of an imported template are labelled like any imported rule: by its name in the importing grammar
+                opts.template_source = name
 
         exp = _mangle_definition_tree(exp, mangle)
         return name, is_term, exp, params, opts
